@@ -71,5 +71,33 @@ package schedulerplugin
 //@   requires ipamOK(p)
 //@   ensures ipamOK(p)
 //@   ensures [C04,C01:releaseip-only-own-key] otherKeysUntouched(key)
-//@   modifies all
+//@   modifies map(crd(p).allocatedFIPs), map(crd(p).unallocatedFIPs), floatingip.FloatingIP.Key, floatingip.FloatingIP.Policy, floatingip.FloatingIP.UpdatedAt, floatingip.FloatingIP.NodeName, floatingip.FloatingIP.PodUid, floatingip.FloatingIP.Labels, StoreDom, faults, fresh mapsof(map[string]string), fresh floatingip.FloatingIPInfo.*, fresh nets.IPNet.*, fresh mapsof(map[string]sets.Empty), fresh elemsof(string), fresh elemsof(*floatingip.FloatingIPInfo), fresh elemsof(byte), fresh elemsof(interface{})
 //@   loop 0 invariant m != nil && fresh(m) && forall k string :: k in m ==> m[k] == key
+
+// ---- what happens to the IPs of a pod that is gone: unbindNoneDpPod / unbindDpPod (C03, C04) ----
+//@ func (CrdKey).GetGroupVersionResource trusted noeffect
+// the decision helpers only read caches: no effect on IPAM state
+//@ func [C03,C18] (*FloatingIPPlugin).supportReserveIPPolicy
+//@   requires obj != nil && p.crdKey != nil
+//@   ensures [C03:dp-and-sts-support-reservation] obj.AppTypePrefix == "dp_" || obj.AppTypePrefix == "sts_" ==> result == nil
+//@   modifies nothing
+//@ func (*FloatingIPPlugin).checkAppAndReplicas noeffect
+//@ func (*FloatingIPPlugin).shouldRelease noeffect
+//@ func (*FloatingIPPlugin).getReplicasOfDeployment noeffect
+//@ func parsePodIndex noeffect
+//@ func (*util.KeyObj).Deployment inline
+//@ func (*util.KeyObj).StatefulSet inline
+//@ pure listersOK(p *FloatingIPPlugin) bool = p.IPAMContext != nil && p.StatefulSetLister != nil && p.DeploymentLister != nil && p.crdKey != nil && p.crdCache != nil && p.dpLockPool != nil
+//@ func [C03,C04,C01] (*FloatingIPPlugin).unbindNoneDpPod
+//@   requires keyObj != nil && ipamOK(p) && listersOK(p)
+//@   ensures ipamOK(p)
+//@   ensures [C04,C01:unbind-only-own-key] otherKeysUntouched(keyObj.KeyInDB)
+//@   ensures [C03:never-policy-keeps-sts-ip] policy == 2 && keyObj.AppTypePrefix == "sts_" ==> StoreDom == old(StoreDom)
+//@   modifies map(crd(p).allocatedFIPs), map(crd(p).unallocatedFIPs), floatingip.FloatingIP.Key, floatingip.FloatingIP.Policy, floatingip.FloatingIP.UpdatedAt, floatingip.FloatingIP.NodeName, floatingip.FloatingIP.PodUid, floatingip.FloatingIP.Labels, fresh floatingip.FloatingIP.IP, fresh floatingip.FloatingIP.pool, StoreDom, StoreKey, StorePolicy, StoreNode, StoreUid, faults, fresh mapsof(map[string]string), fresh floatingip.FloatingIPInfo.*, fresh nets.IPNet.*, fresh mapsof(map[string]sets.Empty), fresh elemsof(string), fresh elemsof(*floatingip.FloatingIPInfo), fresh elemsof(byte), fresh elemsof(interface{})
+//@ func [C03,C04,C01] (*FloatingIPPlugin).unbindDpPod
+//@   requires keyObj != nil && ipamOK(p) && listersOK(p) && p.podLockPool != p.dpLockPool && forall id string :: held[3*keylock(p.dpLockPool, id) + 1] == 0
+//@   ensures ipamOK(p)
+//@   ensures [C04,C01:unbind-only-own-key] otherKeysUntouched(keyObj.KeyInDB)
+//@   ensures [C03:never-policy-keeps-dp-ip] policy == 2 ==> StoreDom == old(StoreDom)
+//@   ensures held == old(held)
+//@   modifies map(crd(p).allocatedFIPs), map(crd(p).unallocatedFIPs), floatingip.FloatingIP.Key, floatingip.FloatingIP.Policy, floatingip.FloatingIP.UpdatedAt, floatingip.FloatingIP.NodeName, floatingip.FloatingIP.PodUid, floatingip.FloatingIP.Labels, fresh floatingip.FloatingIP.IP, fresh floatingip.FloatingIP.pool, StoreDom, StoreKey, StorePolicy, StoreNode, StoreUid, faults, fresh mapsof(map[string]string), fresh floatingip.FloatingIPInfo.*, fresh nets.IPNet.*, fresh mapsof(map[string]sets.Empty), fresh elemsof(string), fresh elemsof(*floatingip.FloatingIPInfo), fresh elemsof(byte), fresh elemsof(interface{}), held
